@@ -62,7 +62,7 @@ func c12Seq(c *core.Ctx, esc bool, legacy bool) *SeqCase {
 	strs = append(strs, long)
 	prof := gen.Hostile().With(func(p *gen.Profile) { p.Keys = keys; p.Strings = strs; p.WS = 0; p.Spell = spell })
 	o := ref.Opts{NegIdx: true, Legacy: legacy}
-	cfg := &SeqCfg{Prof: prof, MinOps: 1, MaxOps: 8, MissRate: 6, ContinueAfterFail: false,
+	cfg := &SeqCfg{Prof: prof, MinOps: 1, MaxOps: 8, MissRate: 6, ContinueAfterFail: false, RootOK: !legacy,
 		Kinds: []string{"copy", "copy", "copy", "copy", "add", "move", "replace", "test", "remove"}}
 	return GenSeq(c.R, cfg, o)
 }
@@ -78,7 +78,8 @@ func c12AnySeq(c *core.Ctx) *SeqCase {
 	}
 	strs = append(strs, long, "<", "a&b")
 	prof := gen.Hostile().With(func(p *gen.Profile) { p.Keys = c01Keys; p.Strings = strs; p.WS = 30; p.Spell = gen.SpellRandom })
-	cfg := &SeqCfg{Prof: prof, MinOps: 1, MaxOps: 7, MissRate: 6,
+	// RootOK: the root may be replaced (add / replace with path "") before the copies
+	cfg := &SeqCfg{Prof: prof, MinOps: 1, MaxOps: 7, MissRate: 6, RootOK: true,
 		Kinds: []string{"copy", "copy", "copy", "copy", "add", "move", "replace", "test", "remove"}}
 	return GenSeq(c.R, cfg, ref.Opts{NegIdx: true})
 }
@@ -86,33 +87,41 @@ func c12AnySeq(c *core.Ctx) *SeqCase {
 // canonDest names the location at which a copy/add placed its value, as a
 // strict pointer into the document after the operation.
 func canonDest(after *jr.Value, path string) (string, bool) {
-	i := strings.LastIndex(path, "/")
-	if i < 0 {
+	if path == "" || path[0] != '/' {
 		return "", false
 	}
-	parent, tok := path[:i], path[i+1:]
-	pn := after.Resolve(parent)
-	if pn == nil {
-		return "", false
-	}
-	switch pn.K {
-	case jr.Obj:
-		return path, true
-	case jr.Arr:
-		n := len(pn.A)
-		if tok == "-" {
-			return parent + "/" + strconv.Itoa(n-1), true
-		}
-		if strings.HasPrefix(tok, "-") {
-			v, err := strconv.Atoi(tok)
-			if err != nil || n+v < 0 {
-				return "", false
+	toks := strings.Split(path[1:], "/")
+	cur := after
+	canon := ""
+	for n, tok := range toks {
+		last := n == len(toks)-1
+		switch cur.K {
+		case jr.Obj:
+			canon += "/" + tok
+		case jr.Arr:
+			ln := len(cur.A)
+			switch {
+			case tok == "-" && last:
+				tok = strconv.Itoa(ln - 1)
+			case strings.HasPrefix(tok, "-"):
+				// negative indices count from the end (of the array as it is after the operation)
+				v, err := strconv.Atoi(tok)
+				if err != nil || ln+v < 0 {
+					return "", false
+				}
+				tok = strconv.Itoa(ln + v)
 			}
-			return parent + "/" + strconv.Itoa(n+v), true
+			canon += "/" + tok
+		default:
+			return "", false
 		}
-		return path, true
+		nx := cur.Resolve("/" + tok)
+		if nx == nil {
+			return "", false
+		}
+		cur = nx
 	}
-	return "", false
+	return canon, true
 }
 
 // outputSpellingSizes measures every accounted copy of the sequence "as it is
@@ -146,7 +155,7 @@ func outputSpellingSizes(c *core.Ctx, sc *SeqCase, o V5Opts) (sizes [][2]int, wh
 		}
 		dest, ok := canonDest(e.Root, sc.Ops[cp.Index].Path)
 		if !ok {
-			return nil, "harness: destination of an accounted copy not resolvable in the reference"
+			return nil, "harness: destination of an accounted copy not resolvable in the reference: " + sc.Ops[cp.Index].Path + " in " + clip(e.Root.String(), 300) + " patch " + clip(sc.Patch(), 600)
 		}
 		node := root.Resolve(dest)
 		if node == nil {
